@@ -6,7 +6,9 @@ package forwarder
 
 import (
 	"net"
+	"reflect"
 	"sync"
+	"unsafe"
 
 	"github.com/khirono/go-nl"
 
@@ -26,7 +28,9 @@ func VerifNewGtp5g(wg *sync.WaitGroup, mux *nl.Mux, conn, psConn nl.Conner, fami
 		mux: mux,
 	}
 	g.client = &gtp5gnl.Client{Client: nl.NewClient(conn, mux), ID: family}
-	g.psClient = &gtp5gnl.Client{Client: nl.NewClient(psConn, mux), ID: family}
+	// the periodic server's own netlink client, if the driver has one (set by name, so that the harness still builds —
+	// and can then look for a failing input — when a change does away with it)
+	verifSet(g, "psClient", &gtp5gnl.Client{Client: nl.NewClient(psConn, mux), ID: family})
 	g.link = &Gtp5gLink{mux: mux, link: &gtp5gnl.Link{Index: ifindex, Name: "upfgtp"}, conn: udp, log: g.log}
 	g.bsnl = buffnetlink.VerifNewServer()
 	ps, err := perio.OpenServer(wg)
@@ -40,13 +44,14 @@ func VerifNewGtp5g(wg *sync.WaitGroup, mux *nl.Mux, conn, psConn nl.Conner, fami
 func VerifCheckVersion(g *Gtp5g) error { return g.checkVersion() }
 
 func VerifBuffServer(g *Gtp5g) *buffnetlink.Server { return g.bsnl }
-func VerifPerio(g *Gtp5g) *perio.Server          { return g.ps }
+func VerifPerio(g *Gtp5g) *perio.Server            { return g.ps }
 
 // VerifClosePerio stops the periodic server only (the netlink side is the harness's own).
 func VerifClosePerio(g *Gtp5g) { g.ps.Close() }
 
 func VerifQueryMulti(g *Gtp5g, m map[uint64][]uint32) (map[uint64][]report.USAReport, error) {
-	return g.psQueryURR(m)
+	// through the callback the driver registered with the periodic server (whatever it is called)
+	return perio.VerifQuery(g.ps, m)
 }
 
 // VerifNewFlowDesc returns the packed flow-description attributes (as they go into the netlink request)
@@ -62,4 +67,14 @@ func VerifNewFlowDesc(s string, swap bool) ([]byte, error) {
 		return nil, err
 	}
 	return b, nil
+}
+
+// verifSet sets the unexported field `name` of *obj, if there is such a field of a fitting type
+func verifSet(obj interface{}, name string, val interface{}) bool {
+	f := reflect.ValueOf(obj).Elem().FieldByName(name)
+	if !f.IsValid() || !reflect.TypeOf(val).AssignableTo(f.Type()) {
+		return false
+	}
+	reflect.NewAt(f.Type(), unsafe.Pointer(f.UnsafeAddr())).Elem().Set(reflect.ValueOf(val))
+	return true
 }
